@@ -313,10 +313,16 @@ pub fn check_text(r: &TaxReport, text: &str) -> Result<(), String> {
         }
         // price and fees echoed in full with their currency symbol
         let rest = &l[want.len()..];
-        let p = trimmed(price.amount);
-        let f = trimmed(fees.amount);
-        if !rest.contains(&p) || !rest.contains(&format!("{f} fees")) {
-            return Err(format!("text: transaction line '{l}' does not echo price {p} and fees {f} in full"));
+        // in full (trailing zeros or not), or rounded to pence half away from zero
+        let forms = |d: Decimal| -> Vec<String> {
+            let mut v = vec![trimmed(d), d.to_string(), Rat::from_dec(d).to_fixed(2)];
+            v.dedup();
+            v
+        };
+        let p_ok = forms(price.amount).iter().any(|p| rest.contains(p.as_str()));
+        let f_ok = forms(fees.amount).iter().any(|f| rest.contains(&format!("{f} fees")));
+        if !p_ok || !f_ok {
+            return Err(format!("text: transaction line '{l}' does not echo price {} and fees {} (in full or to pence)", trimmed(price.amount), trimmed(fees.amount)));
         }
     }
     // asset events echo (DIVIDEND/ACCUMULATION/CAPRETURN/SPLIT/UNSPLIT): same lines, date then
